@@ -27,8 +27,8 @@ This is a protocol model, not a transcription of Go code:
   Message timing is unconstrained: any sent message may be delivered to anybody any number of times, in
   any order, or never.  Liveness is out of scope.
 
-Part 2 (below, `namespace Code`) holds the thresholds as the Go code computes and compares them and the
-executable decision functions used for trace validation.
+The thresholds as the Go code computes and compares them are the first definitions below; the executable
+decision functions used for trace validation are in Lib/C22Sim.lean.
 -/
 namespace Gossamer.C22
 
@@ -177,6 +177,7 @@ structure Msg (B : Type) where
   stage : Stage
   voter : Nat
   block : B
+  deriving DecidableEq
 
 section protocol
 variable {B : Type} [DecidableEq B]
